@@ -71,7 +71,7 @@ class Run(PropRunStream):
     strategies = ("fifo", "lifo", "random", "random")
     quick_cases = 330
     quick_seconds = 60
-    corpus = [witness("(control) distinct ranks")] + W2.CONTROLS
+    corpus = [witness("(control) distinct ranks")] + W2.CONTROLS4 + W2.CONTROLS
 
     def gen(self, rng, i):
         case = super().gen(rng, i)
